@@ -102,11 +102,28 @@ def parsed_col(t):
     return None
 
 
+def mask_targets(t):
+    """numpy.zeros(n, dtype=bool){[targets] = True} -> targets (the index list a boolean membership mask was built from)"""
+    if not (isinstance(t, tuple) and len(t) == 5 and t[0] == "store" and t[4] is None and is_const(t[3], True)):
+        return None
+    b = t[1]
+    if not (isinstance(b, tuple) and b[0] == "ext" and b[1] in ("numpy.zeros", "numpy.zeros_like") and len(b[2]) == 1):
+        return None
+    kw = dict(b[3])
+    if set(kw) != {"dtype"} or kw["dtype"] not in (("extref", "bool"), ("extref", "numpy.bool_")):
+        return None
+    return t[2]
+
+
 def strip_destroy(t):
     """remove sort / unique / set wrappers around a target list -> (inner term, whether anything was removed)"""
     destroyed = False
     while isinstance(t, tuple) and t:
-        if t[0] == "ext" and t[1] in api.ORDER_DESTROY and t[2]:
+        m = mask_targets(t)
+        if m is not None:
+            # x[mask] visits the True positions in ascending index order: a membership mask is a sorted, de-duplicated target list
+            destroyed, t = True, m
+        elif t[0] == "ext" and t[1] in api.ORDER_DESTROY and t[2]:
             destroyed, t = True, t[2][0]
         elif t[0] == "method" and t[2] == "astype" and isinstance(t[1], tuple) and t[1][0] == "ext" and t[1][1] in api.ORDER_DESTROY and t[1][2]:
             destroyed, t = True, ("method", t[1][2][0], "astype", t[3], t[4])
